@@ -160,18 +160,14 @@ class ResourceAuthZAttributes:
             # site must be set (typically set by Topology.validate())
             if not sliver.site:
                 sliver.site = "UNKNOWN-SITE"
+            # Additional condition for PortMirror to not throw an error if the
+            # port being mirrored is within the same slice: such a service does not
+            # list its site (and leaves sites listed by other services in place)
+            if sliver.resource_type == ServiceType.PortMirror and \
+                    sliver.mirror_port in in_slice_ports:
+                return
             if sliver.site not in self._attributes[resource_name]:
                 self._attributes[resource_name].append(sliver.site)
-
-            # Additional condition for PortMirror to not throw an error if the
-            # port being mirrored is within the same slice
-            if sliver.resource_type == ServiceType.PortMirror and \
-                    sliver.mirror_port in in_slice_ports and \
-                    len(self._attributes[resource_name]):
-                # Specific logic for PortMirror if needed
-                self._attributes[resource_name].pop()
-                if len(self._attributes[resource_name]) == 0:
-                    self._attributes.pop(resource_name)
 
     def _collect_attributes_from_base_sliver(self, sliver: BaseSliver):
         if isinstance(sliver, NetworkServiceSliver):
